@@ -214,6 +214,9 @@ func VerifH06b() {
 	if withQ > 0 {
 		menu = 8
 	}
+	if vParam("X", 0) > 0 {
+		menu = 10 // also unknown-type and oversized messages
+	}
 	for i := 0; i < K; i++ {
 		kinds[i] = vChoose(menu)
 		switch kinds[i] {
@@ -253,6 +256,10 @@ func VerifH06b() {
 			q := []byte{nondetByte()}
 			vAssume(vAnd(q[0] != 0, q[0] > ' '))
 			input = append(input, vMsgBytes('Q', vCStr(q))...)
+		case 8: // a message type the server does not know
+			input = append(input, vMsgBytes('z', nondetBytes(vChoose(2)))...)
+		case 9: // an oversized message (limit 64) of an extended-query type
+			input = append(input, vMsgBytes('P', make([]byte, 65+vChoose(2)))...)
 		}
 	}
 
@@ -280,6 +287,18 @@ func VerifH06b() {
 			return
 		}
 
+		if kinds[i] == 8 || kinds[i] == 9 {
+			// unknown type / oversized: the texts of C06 and C10 do not settle whether
+			// the cycle ends here; one ErrorResponse, optionally ReadyForQuery, no callback
+			if ref.skip && kinds[i] == 8 {
+				vAssert("skipped-unknown-type-no-reply", got == "")
+			} else {
+				vAssert("unknown-or-oversized-one-error", got == "E" || got == "EZ")
+			}
+			vAssert("unknown-or-oversized-no-callback", parses == 0 && execs == 0)
+			vReach("unknown-or-oversized")
+			continue
+		}
 		if ref.skip && kinds[i] != 6 {
 			vAssertK("skipped-no-reply", "KF-C06-2", true, got == "")
 			vAssertK("skipped-no-callback", "KF-C06-2", true, parses == 0 && execs == 0)
